@@ -149,6 +149,22 @@ PROPS = {
         real_vs_stub=L_REAL,
         assumptions=SIM_ASSUME,
     ),
+    "C10": dict(
+        pkg="cmd/restic", test="TestVerifC10", level="exploration", quick_s=60, thorough_s=900,
+        text="histories of 2-5 backups of changing trees, a third of them crashed at a tape-chosen mutation (leaving unreferenced packs), optional "
+             "`repair index` after a crash (indexing orphaned packs, which later yields duplicates), forgotten snapshots and optionally a deleted "
+             "pack holding only unused blobs; then a scheduled, fault-free `prune --max-unused 0`. An independent decoder of the stored bytes gives "
+             "the ground truth: used/duplicate/unused blob counts and byte sums and unreferenced packs before the prune must equal the reported "
+             "statistics; afterwards the index names exactly the used blobs, each once, every pack is indexed, every entry matches the pack, and the "
+             "announced remaining/removed totals equal what is there",
+        note="the simulator contributes the histories (interrupted operations are the only way to reach duplicate/unindexed states) and the repack "
+             "schedule; byte totals after repacking are compared only without compression; mixed packs are not generated",
+        design_ref="3 / C10",
+        rule="one run = configuration x history (crashed backups, repair index, forget, deleted unneeded pack) x seeded schedule of the prune; "
+             "distinct = distinct event-log hash among runs with a real scheduling choice or fired fault",
+        real_vs_stub=L_REAL,
+        assumptions=SIM_ASSUME,
+    ),
     "C15": dict(
         pkg="cmd/restic", test="TestVerifC15", level="exploration", quick_s=60, thorough_s=900,
         text="generated histories of 2-8 operations over backup, forget, prune, forget --prune, tag, rewrite --exclude, key add/passwd and repair "
